@@ -41,7 +41,7 @@ func (p *cfmt) Setup(env *fw.Env) error {
 	case "tree":
 		p.RuleS = src + ". Oracle: format.Source succeeds, its output parses without error and is shape-equal (reflection comparator ignoring positions, comments, resolver data; numeric literals by value; imports of a declaration as a set; redundant parentheses and empty statements ignored — gofmt conventions inherited by the formatter) to the tree of the input. Non-trivial = source with >=12 tokens; distinct by source text."
 	case "idem":
-		p.RuleS = src + ", tightened variants (optional blanks next to punctuation removed) and files of one-line functions / function literals whose printed width lies around the printer's 100-column limit, spelled with and without the optional blanks. Oracle: format.Source(format.Source(x)) == format.Source(x) byte for byte. Non-trivial = source with >=12 tokens."
+		p.RuleS = src + ", tightened variants (optional blanks next to punctuation removed) and files of one-line functions / function literals whose printed width lies around the printer's 100-column limit, spelled with and without the optional blanks, and files in compact layouts (compound statements, struct types, literals and declaration groups written on one source line or broken in unusual places, with trailing and leading comments and blank lines in between). Oracle: format.Source(format.Source(x)) == format.Source(x) byte for byte. Non-trivial = source with >=12 tokens."
 	default:
 		p.RuleS = src + "; most cases additionally get 1..4 uniquely numbered comments (/*cN*/, //cN, #cN, multi-line) injected at random token boundaries (kept iff the source still parses). Oracle: the sequence of comment texts (scanner, normalised by trimming and removing block-comment re-indentation) of the output equals that of the input: every comment exactly once, same order. Non-trivial = source with >=1 comment."
 	}
@@ -50,6 +50,7 @@ func (p *cfmt) Setup(env *fw.Env) error {
 	if p.which == "idem" {
 		p.Floor["kind:near-limit-one-liner"] = extra / 20
 		p.Floor["kind:tightened"] = extra / 20
+		p.Floor["kind:compact-layout"] = extra / 20
 	}
 	if p.which == "comments" {
 		p.Floor["kind:inject"] = 2000
@@ -92,6 +93,8 @@ func (p *cfmt) Case(i int) fw.Case {
 		// one-line functions whose header + body is close to the printer's 100-column limit, spelled with and
 		// without the optional blanks (layout decisions must not depend on how the source was spaced)
 		return fw.Case{Kind: "near-limit-one-liner", In: []byte(nearLimitOneLiners(r))}
+	} else if p.which == "idem" && r.Chance(1, 7) {
+		return fw.Case{Kind: "compact-layout", In: []byte(compactLayouts(r))}
 	} else {
 		for {
 			it, kind = astSource(p.Env, r, 1<<30)
@@ -606,6 +609,121 @@ func nearLimitOneLiners(r *fw.Rand) string {
 		default:
 			fmt.Fprintf(&b, "func %s(%s int)%s(n int,%serr error)%s{%sn = %s; return%s}\n\n", name, strings.Join(ps, sep), sp, sp, sp, sp, strings.Join(ps, " + "), sp)
 		}
+	}
+	return b.String()
+}
+// compactLayouts writes functions, type and value declarations in layouts the formatter has to change: compound
+// statements, composite literals, struct types and parameter lists spelled on one source line (the printer expands
+// most of them), with and without trailing comments on the same and on the following line, blank lines and
+// stand-alone comment lines in between. Layout decisions that consult source lines see different lines on the
+// second pass.
+func compactLayouts(r *fw.Rand) string {
+	var b strings.Builder
+	nc := 0
+	cmt := func() string {
+		nc++
+		switch r.Intn(8) {
+		case 0, 1, 2:
+			return fmt.Sprintf(" // c%d", nc)
+		case 3:
+			return fmt.Sprintf(" /* c%d */", nc)
+		case 4:
+			return fmt.Sprintf("\t// c%d %s", nc, strings.Repeat("w", r.Range(1, 30)))
+		}
+		nc--
+		return ""
+	}
+	simple := func(k int) string {
+		switch r.Intn(9) {
+		case 0:
+			return fmt.Sprintf("n%d := %d", k, r.Intn(100))
+		case 1:
+			return fmt.Sprintf("println n, %d", k)
+		case 2:
+			return fmt.Sprintf("n += %d", k)
+		case 3:
+			return fmt.Sprintf("total%d := n * %d", k, r.Range(2, 9))
+		case 4:
+			return fmt.Sprintf("var v%d, w%d = %d, \"s\"", k, k, k)
+		case 5:
+			return fmt.Sprintf("xs <- %d", k)
+		case 6:
+			return fmt.Sprintf("m%d := {\"a\": %d, \"bbb\": %d}", k, k, k+1)
+		case 7:
+			return fmt.Sprintf("fmt.Println(n, xs, %d)", k)
+		default:
+			return "n++"
+		}
+	}
+	var stmt func(k, depth int) string
+	oneLine := func(k, depth int) string {
+		s := simple(k)
+		switch r.Intn(12) {
+		case 0, 1:
+			return fmt.Sprintf("if n > %d { %s }", k, s)
+		case 2:
+			return fmt.Sprintf("if n > %d { %s } else { %s }", k, s, simple(k+50))
+		case 3:
+			return fmt.Sprintf("for x in xs { %s; _ = x }", s)
+		case 4:
+			return fmt.Sprintf("for i := 0; i < %d; i++ { %s }", k, s)
+		case 5:
+			return fmt.Sprintf("for _, x := range xs { _ = x; %s }", s)
+		case 6:
+			return fmt.Sprintf("func() { %s }()", s)
+		case 7:
+			return fmt.Sprintf("switch n { case %d: %s; default: n-- }", k, s)
+		case 8:
+			return fmt.Sprintf("L%d: for { break L%d }", k, k)
+		case 9:
+			return fmt.Sprintf("{ %s }", s)
+		case 10:
+			return fmt.Sprintf("defer func() { %s }()", s)
+		default:
+			return fmt.Sprintf("pt%d := struct{ a int; bb string }{a: %d, bb: \"x\"}; _ = pt%d", k, k, k)
+		}
+	}
+	stmt = func(k, depth int) string {
+		switch r.Intn(10) {
+		case 0, 1, 2, 3:
+			return oneLine(k, depth)
+		case 4:
+			if depth < 2 {
+				return fmt.Sprintf("if n < %d {\n%s%s\n%s%s\n}", k, stmt(k+100, depth+1), cmt(), stmt(k+200, depth+1), cmt())
+			}
+		case 5:
+			if depth < 2 {
+				return fmt.Sprintf("for n < %d {\n%s%s\nbreak\n}", k, stmt(k+100, depth+1), cmt())
+			}
+		}
+		return simple(k)
+	}
+	b.WriteString("import \"fmt\"\n\n")
+	nf := r.Range(1, 3)
+	for f := 0; f < nf; f++ {
+		switch r.Intn(5) {
+		case 0:
+			fmt.Fprintf(&b, "type T%d struct { a int%s\nbb string%s\n}\n\n", f, cmt(), cmt())
+		case 1:
+			fmt.Fprintf(&b, "var (\n\ta%d = %d%s\n\tbbbb%d = []int{1, 2,\n3}%s\n\tc%d = 1%s\n)\n\n", f, f, cmt(), f, cmt(), f, cmt())
+		case 2:
+			fmt.Fprintf(&b, "const ( A%d = iota%s\nBBB%d%s\n)\n\n", f, cmt(), f, cmt())
+		}
+		fmt.Fprintf(&b, "func f%d(xs []int, n int) {\n", f)
+		ns := r.Range(2, 8)
+		for k := 0; k < ns; k++ {
+			if r.Chance(1, 6) {
+				b.WriteString("\n")
+			}
+			if r.Chance(1, 8) {
+				nc++
+				fmt.Fprintf(&b, "// lead%d\n", nc)
+			}
+			b.WriteString(stmt(f*1000+k, 0))
+			b.WriteString(cmt())
+			b.WriteString("\n")
+		}
+		b.WriteString("}\n\n")
 	}
 	return b.String()
 }
